@@ -393,7 +393,7 @@ func isPeekErr(v ssa.Value) bool {
 		return false
 	}
 	call, ok := ex.Tuple.(*ssa.Call)
-	return ok && call.Call.StaticCallee() != nil && call.Call.StaticCallee().Name() == "Peek"
+	return ok && call.Call.StaticCallee() != nil && baseFuncName(call.Call.StaticCallee()) == "Peek"
 }
 
 func rulePacketCtor(c *Ctx) {
@@ -491,7 +491,7 @@ func ruleFrameSymmetry(c *Ctx) {
 	lenOK := false
 	if put != nil {
 		if lc, ok := stripConv(put.Call.Args[2]).(*ssa.Call); ok && calleeName(&lc.Call) == "builtin.len" {
-			if f, _, ok := fieldLoad(lc.Call.Args[0]); ok && f.Name() == "Data" {
+			if f, _, ok := fieldLoad(lc.Call.Args[0]); ok && theProgram.baseFieldName(f) == "Data" {
 				lenOK = true
 			}
 		}
@@ -513,7 +513,7 @@ func ruleFrameSymmetry(c *Ctx) {
 		}
 		sl, isSl := a.Call.Args[0].(*ssa.Slice)
 		f, _, isData := fieldLoad(b.Call.Args[0])
-		two = isSl && sl.Low == nil && sl.High == nil && isData && f.Name() == "Data" && a.Call.Value == b.Call.Value
+		two = isSl && sl.Low == nil && sl.High == nil && isData && theProgram.baseFieldName(f) == "Data" && a.Call.Value == b.Call.Value
 	}
 	c.Decide(two, "frame:writer-prefix-then-data", p.Pos(wp.Pos()), "whole 4-byte prefix then the whole Data to the same writer", "Packet.Write does not write the whole 4-byte prefix followed by the whole Data to the same writer")
 }
